@@ -7,9 +7,9 @@ LIBS = {
 
 PROPS = {
     "C01": {
-        "lean_modules": ["Props.Clean", "Props.Cells"],
+        "lean_modules": ["Props.Clean", "Props.Cells", "Props.Facts19"],
         "groups": [{"name": "render", "quick": 2500, "thorough": 60000}, {"name": "C01misc", "quick": 2000, "thorough": 60000},
-                   {"name": "C14", "quick": 1500, "thorough": 40000}],
+                   {"name": "C14", "quick": 1500, "thorough": 40000}, {"name": "C06", "quick": 1200, "thorough": 30000, "workers": 12}],
         "rule": "documents from grammars of HTML (inline styles, links, media, blockquotes, lists, headings, pre, hr, unknown tags, character-reference and raw control-character injections), Markdown, gemtext and plain text with URLs x sequences of 1..4 widths (-3..250); "
                 "error text quoting hostile status lines / media types / raw control characters through style.Problem; Scrub and SetLength on raw text with C0, DEL, C1, ESC, tabs; style expressions followed by layout pipelines; "
                 "the Safe predicate (printable, newline, complete SGR sequences only) is evaluated on every implementation output; non-trivial = the input contains a control character / a link / several widths; distinct by op content",
@@ -82,6 +82,7 @@ PROPS = {
         "shrink_budget": 3,
     },
     "C03": {
+        "lean_modules": ["Props.Facts03"],
         "groups": [{"name": "C03", "quick": 1600, "thorough": 40000, "workers": 8}],
         "rule": "status / Content-Type / Location lines and header blocks from a grammar with mutations (case, blanks, CR, missing newline, odd versions and codes); worlds of 1..4 documents and 0..25 redirects over five loopback TLS hosts (relative and cross-host Locations, non-https hops, missing/unparsable Location, self loops and cycles, chains around the budget of 20, odd status lines, content types, bodies) x sequences of 1..8 fetches (cache warm-up); "
                 "compared: result class, source, stamp, and the exact request sequence the simulator saw; non-trivial = at least two connections were opened; distinct by op content",
@@ -92,6 +93,7 @@ PROPS = {
         "assumptions": ["servers unchanged between fetches (the `Env` is fixed)"],
     },
     "C04": {
+        "lean_modules": ["Props.Facts04"],
         "groups": [{"name": "C04", "quick": 1200, "thorough": 30000, "workers": 8}],
         "rule": "fetches of URLs with hostile paths and queries (raw and encoded CR/LF, spaces, %00, fragments), userinfo, upper-case scheme, non-https schemes, scheme-less references, redirects to plaintext and to CR/LF-carrying Locations, a plaintext canary listener; webfinger lookups with hostile account and domain parts (CR/LF, spaces, '#', '?', userinfo, unresolvable names); "
                 "compared: result and the raw bytes of every connection; non-trivial = at least one connection reached the simulator; distinct by op content",
@@ -102,6 +104,7 @@ PROPS = {
         "shrink_budget": 4,
     },
     "C05": {
+        "lean_modules": ["Props.Facts04"],
         "groups": [{"name": "C05", "quick": 160, "thorough": 6000, "workers": 16, "config": "[network]\ntimeout_seconds = 1\n"}],
         "replay_config": "[network]\ntimeout_seconds = 1\n",
         "level": "fault_enumeration",
@@ -113,6 +116,7 @@ PROPS = {
         "shrink_budget": 0,
     },
     "C10": {
+        "lean_modules": ["Props.Facts10"],
         "groups": [{"name": "C10", "quick": 4000, "thorough": 150000}],
         "rule": "page chains of 0..18 embedded pages (Collection/OrderedCollection, items on the root and/or pages, empty pages with varying bias, absent/null/single-value items, wrong page types, chains ending in a non-https reference, a non-object, a non-collection or an object that would need re-fetching) x request-size sequences (one large request, constant small requests, random sizes incl. 0) x start offsets; "
                 "non-trivial = at least three pages visited; distinct by op content",
@@ -156,6 +160,7 @@ PROPS = {
                         "Go int overflow of feed bounds is out of scope"],
     },
     "C19": {
+        "lean_modules": ["Props.Facts19"],
         "groups": [{"name": "C19", "quick": 3000, "thorough": 60000},
                    {"name": "C19x", "quick": 4000, "thorough": 16777216, "workers": 16}],
         "rule": "hexToAnsi on valid, near-valid (one bad digit, signs, underscores, wrong length, non-ASCII digits) and random strings; configuration files generated value-first (colours, preload_amount/timeout_seconds/cache_size from {-1000..1000}, hooks of 0..3 arguments, unknown keys/tables, syntax errors, missing file) "
@@ -165,6 +170,7 @@ PROPS = {
         "assumptions": ["Config.Safe is the only configuration hypothesis used by the panic-freedom theorems of C06/C07/C20"],
     },
     "C20": {
+        "lean_modules": ["Props.Facts19"],
         "groups": [{"name": "C20", "quick": 600, "thorough": 20000, "workers": 12}],
         "rule": "hooks of 1..5 arguments drawn from exact placeholders, embedded/near placeholders, dashes and empty strings, with the program itself sometimes named like a placeholder; links with spaces, quotes, shell metacharacters, leading dashes, newlines, placeholder look-alikes; "
                 "the real ui.openExternally runs a dump program that records argv and stdin; non-trivial = at least one argument after the program; distinct by op content",
